@@ -222,11 +222,21 @@ pub fn run_edge(edge: &J, want_trace: bool) -> (Option<Viol>, Vec<J>) {
     let writes_before = sess.med.counters().writes;
     let med_before = sess.med.handle();
     let r = sess.exec(ev);
-    if let Some((b0, w0)) = quiet_before {
+    if let Some((b0, w0)) = quiet_before.clone() {
         let reopened = matches!(ev["op"].as_str().unwrap_or(""), "Reopen" | "Crash");
         let w1 = med_before.counters().writes + if reopened { sess.med.counters().writes } else { 0 };
         if w1 != w0 || med_before.snap() != b0 || (reopened && sess.med.snap() != b0) {
             return (Some(Viol { kind: "quiet", what: format!("read-only session closed by {} issued {} writes; bytes {}", ev["op"], w1 - w0, if med_before.snap() == b0 { "identical" } else { "changed" }), detail: json!({}) }), trace);
+        }
+    }
+    if let Some((b0, _)) = &quiet_before {
+        // the same on a real file (every 16th time): msi::open gives the library a read-only File, on which any
+        // write fails; msi::open_rw a writable one, whose bytes must stay what they were
+        static N: std::sync::atomic::AtomicU64 = std::sync::atomic::AtomicU64::new(0);
+        if N.fetch_add(1, std::sync::atomic::Ordering::Relaxed) % 16 == 0 {
+            if let Err(e) = file_quiet(b0) {
+                return (Some(Viol { kind: "quiet", what: format!("read-only session on a file ({}): {}", ev["op"], e), detail: json!({}) }), trace);
+            }
         }
     }
     let writes = sess.med.counters().writes.saturating_sub(writes_before);
@@ -294,6 +304,67 @@ pub fn run_edge(edge: &J, want_trace: bool) -> (Option<Viol>, Vec<J>) {
         }
     }
     (None, trace)
+}
+
+/// every read operation of the public API, on any medium
+fn read_everything<F: std::io::Read + std::io::Seek>(p: &mut msi::Package<F>) -> std::io::Result<u64> {
+    let mut n = 0u64;
+    let _ = (p.package_type(), p.database_codepage(), p.has_digital_signature());
+    let s = p.summary_info();
+    let _ = (s.arch(), s.author(), s.codepage(), s.comments(), s.creating_application(), s.creation_time(), s.languages(), s.subject(), s.title(), s.uuid(), s.word_count());
+    let names: Vec<String> = p.tables().map(|t| t.name().to_string()).collect();
+    for t in &names {
+        if let Some(tab) = p.get_table(t) {
+            for c in tab.columns() {
+                let _ = (c.name(), c.coltype(), c.is_nullable(), c.is_primary_key(), c.is_localizable(), c.value_range(), c.category(), c.enum_values());
+            }
+        }
+        for r in p.select_rows(msi::Select::table(t.as_str()))? {
+            n += r.len() as u64;
+        }
+    }
+    let streams: Vec<String> = p.streams().collect();
+    for sname in &streams {
+        let mut rd = p.read_stream(sname)?;
+        let mut b = Vec::new();
+        std::io::Read::read_to_end(&mut rd, &mut b)?;
+        n += b.len() as u64;
+    }
+    Ok(n)
+}
+
+/// C16 on real files: open read-only / read-write, read everything, close; the file keeps its bytes.
+fn file_quiet(bytes: &[u8]) -> Result<(), String> {
+    static K: std::sync::atomic::AtomicU64 = std::sync::atomic::AtomicU64::new(0);
+    let dir = std::env::temp_dir().join(format!("mv-quiet-{}", std::process::id()));
+    std::fs::create_dir_all(&dir).map_err(|e| e.to_string())?;
+    let path = dir.join(format!("{}.msi", K.fetch_add(1, std::sync::atomic::Ordering::Relaxed)));
+    std::fs::write(&path, bytes).map_err(|e| e.to_string())?;
+    let r = (|| -> Result<(), String> {
+        for rw in [false, true] {
+            let r = std::panic::catch_unwind(|| -> std::io::Result<u64> {
+                let mut p = if rw { msi::open_rw(&path)? } else { msi::open(&path)? };
+                let n = read_everything(&mut p)?;
+                if rw {
+                    p.flush()?;             // a flush of a session that changed nothing
+                }
+                drop(p);
+                Ok(n)
+            });
+            match r {
+                Err(_) => return Err(format!("panic ({})", if rw { "open_rw" } else { "open" })),
+                Ok(Err(e)) => return Err(format!("{} then read-only calls failed: {}", if rw { "open_rw" } else { "open" }, e)),
+                Ok(Ok(_)) => {}
+            }
+            let after = std::fs::read(&path).map_err(|e| e.to_string())?;
+            if after != bytes {
+                return Err(format!("the file changed under {}", if rw { "open_rw" } else { "open" }));
+            }
+        }
+        Ok(())
+    })();
+    let _ = std::fs::remove_file(&path);
+    r
 }
 
 pub fn main(args: &Args) -> i32 {
